@@ -12,7 +12,9 @@ class EmptyCell:       # encodes as the blank object (core.enc looks at the type
 
 
 BLANK = EmptyCell()
-NUMS = [0, 1, 2, 3, 7, 10, -1, -4, 100, 2.5, 0.25, -1.5, 1024.125, 3.0, 1e3, 0.5, 12345678, -0.75]
+NUMS = [0, 1, 2, 3, 7, 10, -1, -4, 100, 2.5, 0.25, -1.5, 1024.125, 3.0, 1e3, 0.5, 12345678, -0.75,
+        # dyadic values with more than 15 significant decimal digits (sums of a few of them are still exact): a total is never rounded to 15 digits
+        1 + 2.0 ** -40, 2 + 2.0 ** -42, 0.5 + 2.0 ** -44, 3 - 2.0 ** -41]
 TEXTS = ['x', 'abc', '7', '12', '', 'TRUE', '-3', '1.5', '#N/A ']
 OTHER = [True, False, None, None, None]
 DATES = [datetime.datetime(2024, 2, 29), datetime.datetime(1999, 12, 31, 23, 59)]
